@@ -202,9 +202,27 @@ func sDo(srv *simple.Nfs, o sOp) sOut {
 	return sOut{}
 }
 
+var sObserved = []uint64{2, 3, 4, 17, 30, 31}
+
+// sLongPre: 525 acknowledged writes - five rounds over all thirty files, then fifteen rounds over files 5..29.  The journal
+// (511 blocks; a write that does not grow the file takes one) has wrapped around since the observed files were last written: whatever was installed for
+// them must have survived every later use of every journal block.
+func sLongPre() []sOp {
+	var pre []sOp
+	for round := 0; round < 20; round++ {
+		for ino := uint64(2); ino <= 31; ino++ {
+			if round >= 5 && (ino < 5 || ino > 29) {
+				continue
+			}
+			pre = append(pre, sOp{K: "WRITE", Ino: ino, Off: 0, Cnt: 4096, Pat: byte(1 + (round*37+int(ino))%250)})
+		}
+	}
+	return pre
+}
+
 func sObserve(srv *simple.Nfs) map[uint64]string {
 	obs := map[uint64]string{}
-	for _, i := range []uint64{2, 3, 31} {
+	for _, i := range sObserved {
 		g := sDo(srv, sOp{K: "GETATTR", Ino: i})
 		r := sDo(srv, sOp{K: "READ", Ino: i, Off: 0, Cnt: 8192})
 		obs[i] = fmt.Sprintf("%v/%d/%x/%v", g.OK && r.OK, g.Size, r.Data, r.Eof)
@@ -214,7 +232,7 @@ func sObserve(srv *simple.Nfs) map[uint64]string {
 
 func sSpecObs(s sSpec) map[uint64]string {
 	obs := map[uint64]string{}
-	for _, i := range []uint64{2, 3, 31} {
+	for _, i := range sObserved {
 		obs[i] = fmt.Sprintf("%v/%d/%x/%v", true, len(s[i]), s[i], true)
 	}
 	return obs
@@ -317,13 +335,23 @@ func sSeqJob(raw json.RawMessage) (interface{}, error) {
 	res := vrt.Run(vrt.Config{Horizon: 20_000_000}, func() {
 		d = vdisk.New(base)
 		srv := simpleRecover(d)
-		for _, o := range a.Pre {
+		for i, o := range a.Pre {
+			if i%25 == 24 {
+				vrt.Quiesce() // the journal's installer catches up (by default it only runs when the journal is full)
+			}
 			if got, want := sDo(srv, o), spec.apply(o); got != want {
 				viol("seq|reply|"+o.String(), fmt.Sprintf("set-up request %s answered %+v, the specification says %+v", o, clipOut(got), clipOut(want)))
 				return
 			}
 		}
 		specs[0] = spec.Clone().(sSpec)
+		if a.Crash && len(a.Pre) > 0 {
+			// the crash images are those of the history proper: it starts on the disk the set-up left behind
+			vrt.Quiesce()
+			base = d.Snapshot()
+			d = vdisk.New(base)
+			srv = simpleRecover(d)
+		}
 		for i, o := range a.Ops {
 			cur = o.String()
 			if o.K == "RESTART" {
@@ -602,6 +630,14 @@ func C17(r *report.Report, tier string) {
 			jobs = append(jobs, j)
 		}
 	}
+	// ... and from a state in which the journal has wrapped around since the files were written (single requests)
+	for i := 0; i < n0; i++ {
+		j := jobs[i].(sSeqArg)
+		if len(j.Ops) == 1 || (tier == "thorough" && len(j.Ops) == 2) {
+			j.Pre = sLongPre()
+			jobs = append(jobs, j)
+		}
+	}
 	// crash histories over successful mutations (from non-initial states too)
 	mut2 := append([]sOp{}, mut...)
 	// the simple server acknowledges every write as FILE_SYNC, whatever stability was asked for
@@ -620,6 +656,9 @@ func C17(r *report.Report, tier string) {
 		}
 	}
 	crec(nil, cdepth)
+	for _, o := range mut2 {
+		jobs = append(jobs, sSeqArg{Pre: sLongPre(), Ops: []sOp{o}, Crash: true})
+	}
 	states := map[string]bool{"": true}
 	par.Map("c17.seq", jobs, par.Options{Deadline: Deadline, UlimitV: 12 << 20}, func(i int, res *par.Result) {
 		if res.Skipped {
